@@ -180,19 +180,16 @@ COMMON_ASSUME = ["Kani/CBMC/CaDiCaL verdicts", "the KFS model (harness/kfs.rs): 
 RELY = "rely/guarantee: between any two calls of the operation the shared directories move to any state other participants' protocol steps can produce"
 
 prop("C01", ["plain_get_env", "raw_insert_or_update_basic", "raw_insert_or_touch_basic", "raw_ops_sanity_twin"],
-     ["plain_set_env", "plain_put_env", "sharded_get_01", "sharded_set_absent_env", "stack_get_w1r1_nock", "stack_gou_w1r1_sec", "stack_gou_w2r1_miss",
-      "stack_set_temp_w1r1", "plain_set_seq", "plain_put_seq"],
+     ["plain_set_env", "plain_put_env", "sharded_get_01", "sharded_set_absent_env", "stack_get_w1r1_nock", "stack_gou_w1r1_miss", "stack_gou_w1r1_sec", "stack_gou_w2r1_miss", "stack_gou_w1r1_env_sec", "stack_set_temp_w1r1", "plain_set_seq", "plain_put_seq"],
      outside=["byte-granular reads (values are abstracted to content ids; 'complete' is set only by the last write)", "NFS close-to-open semantics",
               "peers that violate the protocol"], assumptions=COMMON_ASSUME + [RELY])
-prop("C02", ["raw_insert_or_update_basic", "raw_insert_or_touch_basic", "c02_cleanup_temp_by_age", "c02_cleanup_temp_missing_dir",
-             "raw_apply_update_evict_a_moveback_b", "raw_ops_sanity_twin"],
-     ["plain_set_seq", "plain_put_seq", "plain_set_fault", "sharded_set_absent", "sharded_set_in_secondary", "sharded_put_in_secondary", "stack_gou_w1r1_sec", "stack_set_temp_w1r1"],
+prop("C02", ["raw_insert_or_update_basic", "raw_insert_or_touch_basic", "c02_cleanup_temp_by_age", "c02_cleanup_temp_missing_dir", "raw_apply_update_evict_a_moveback_b", "raw_ops_sanity_twin"],
+     ["plain_set_seq", "plain_put_seq", "plain_set_fault", "sharded_set_absent", "sharded_put_in_secondary", "stack_gou_w1r1_miss", "stack_gou_w1r1_sec", "stack_set_temp_w1r1"],
      outside=["power-loss reordering of un-fsynced directory updates (documented: directories are not fsynced)",
               "validity is asserted at every call boundary of KFS, i.e. at every point where the process can die between two system calls"],
      assumptions=COMMON_ASSUME)
-prop("C03", ["raw_insert_or_update_basic", "raw_insert_or_touch_basic", "stack_set_temp_w1r1", "stack_set_temp_w1r1_fault", "stack_ops_sanity_twin"],
-     ["stack_gou_w1r1_sec", "stack_gou_w1r1_fault_miss", "stack_set_w1r1", "stack_set_w1r1_fault", "stack_put_w1r1", "stack_put_temp_w2r0",
-      "stack_gou_w2r1_miss", "stack_gou_w1r1_nosync_miss"],
+prop("C03", ["raw_insert_or_update_basic", "raw_insert_or_touch_basic", "stack_ops_sanity_twin"],
+     ["stack_set_temp_w1r1", "stack_set_temp_w1r1_fault", "stack_gou_w1r1_miss", "stack_gou_w1r1_sec", "stack_gou_w1r1_fault_miss", "stack_gou_w1r1_fault_sec", "stack_set_w1r1", "stack_set_w1r1_fault", "stack_put_w1r1", "stack_put_temp_w2r0", "stack_gou_w2r1_miss", "stack_gou_w1r1_nosync_miss"],
      outside=["whether the kernel's fsync is durable", "value sizes (content ids)"], assumptions=COMMON_ASSUME)
 prop("C04", ["plain_get_env", "plain_touch_env", "raw_insert_or_touch_basic", "raw_touch_basic", "raw_ops_sanity_twin"],
      ["plain_put_env", "plain_set_env", "plain_put_seq", "stack_put_w1r1", "stack_ensure_w1r0_putonly_miss"],
@@ -232,15 +229,13 @@ prop("C12", ["c12_mapping", "c12_constants", "c12_new_clamps", "sharded_ops_sani
      outside=["directory names for shard indices >= 2^20", "probe order is checked with the two candidate ids fixed to (0,1) and (1,0)"],
      assumptions=COMMON_ASSUME + ["z3 and cvc5 agree (both consulted on every obligation)"])
 prop("C13", ["stack_get_w1r1_nock", "stack_touch_w1r2", "stack_set_w0r1", "stack_ops_sanity_twin"],
-     ["stack_ensure_w1r1_miss", "stack_gou_w1r1_sec", "stack_gou_w0r1_sec", "stack_gou_w2r1_miss", "stack_set_w1r1", "stack_put_w1r1",
-      "stack_set_temp_w1r1", "stack_put_temp_w2r0", "stack_put_temp_w0r1", "stack_get_w1r2_bytes", "stack_get_w0r2_bytes", "stack_gou_w1r1_env_sec",
-      "readonly_builder_equiv"],
+     ["stack_ensure_w1r1_miss", "stack_ensure_w1r1_sec", "stack_gou_w1r1_miss", "stack_gou_w1r1_sec", "stack_gou_w1r1_pri", "stack_gou_w0r1_sec", "stack_gou_w0r1_miss", "stack_gou_w2r1_miss", "stack_gou_w2r1_sec", "stack_set_w1r1", "stack_put_w1r1", "stack_set_temp_w1r1", "stack_put_temp_w2r0", "stack_put_temp_w0r1", "stack_get_w1r2_bytes", "stack_get_w0r2_bytes", "stack_get_w1r0_nock", "stack_get_w0r1_nock", "stack_gou_w1r1_env_sec", "readonly_builder_equiv"],
      outside=["stack shapes other than those listed (writer in {none, plain, sharded} x up to two plain readers)"], assumptions=COMMON_ASSUME)
 prop("C14", ["stack_get_w1r2_bytes", "stack_get_w1r1_nock", "stack_ops_sanity_twin"],
-     ["stack_get_w0r2_bytes", "stack_gou_w1r1_bytes_pri_diff", "stack_gou_w1r1_sec", "stack_gou_w1r0_bytes_pri", "readonly_builder_equiv"],
+     ["stack_get_w0r2_bytes", "stack_gou_w1r1_bytes_sec", "stack_gou_w1r1_bytes_pri_same", "stack_gou_w1r1_bytes_pri_diff", "stack_gou_w1r0_bytes_pri", "stack_gou_w1r1_sec", "readonly_builder_equiv"],
      outside=["checkers other than none / byte equality (the panicking checker is the same comparison followed by expect())"], assumptions=COMMON_ASSUME)
 prop("C15", ["stack_get_w1r1_nock", "stack_touch_w1r2", "plain_get_seq", "stack_ops_sanity_twin"],
-     ["stack_gou_w1r1_sec", "stack_gou_w0r1_sec", "stack_get_w1r2_bytes", "stack_get_w0r2_bytes", "stack_set_w1r1", "sharded_get_01", "plain_invalid_name_dot"],
+     ["stack_gou_w1r1_sec", "stack_gou_w0r1_sec", "stack_gou_w1r1_pri", "stack_get_w1r2_bytes", "stack_get_w0r2_bytes", "stack_set_w1r1", "sharded_get_01", "plain_invalid_name_dot"],
      outside=["read-only sharded levels"], assumptions=COMMON_ASSUME)
 prop("C16", ["c16_validator", "c16_confinement", "plain_invalid_name_empty", "plain_invalid_name_dot", "plain_invalid_name_slash",
              "plain_invalid_name_backslash", "c16_sanity_twin"], ["sharded_invalid_names", "plain_set_fault"],
@@ -250,13 +245,12 @@ prop("C17", ["raw_prune_pieces_dotfile_only", "c02_cleanup_temp_by_age", "raw_co
      ["raw_prune_pieces_dotfile_and_a", "raw_collect_ab_sub", "raw_apply_update_evict_a_moveback_b"],
      outside=["nested directories below the cache directory (never listed: directories are skipped)"], assumptions=COMMON_ASSUME)
 prop("C18", ["plain_get_fault", "plain_touch_fault", "plain_ops_sanity_twin"],
-     ["plain_set_fault", "plain_put_fault", "sharded_put_absent_fault", "stack_gou_w1r1_fault_miss", "stack_set_temp_w1r1_fault", "stack_set_w1r1_fault"],
+     ["plain_set_fault", "plain_put_fault", "sharded_put_absent_fault", "stack_gou_w1r1_fault_miss", "stack_gou_w1r1_fault_sec", "stack_set_temp_w1r1_fault", "stack_set_w1r1_fault"],
      outside=["more than one failing call per operation", "failures inside the caller's populate function other than its own error return",
               "re-issuing the operation after the fault is covered by the fault-free harnesses starting from arbitrary valid states (C02)"],
      assumptions=COMMON_ASSUME)
 prop("C19", ["plain_get_seq", "stack_get_w1r1_nock", "raw_insert_or_update_basic", "stack_ops_sanity_twin"],
-     ["stack_get_w1r2_bytes", "stack_gou_w1r1_sec", "stack_gou_w1r1_bytes_pri_diff", "stack_set_temp_w1r1", "stack_put_temp_w2r0", "stack_gou_w0r1_sec",
-      "plain_set_seq", "sharded_get_01"],
+     ["stack_get_w1r2_bytes", "stack_gou_w1r1_sec", "stack_gou_w1r1_pri", "stack_gou_w1r1_bytes_sec", "stack_gou_w1r1_bytes_pri_same", "stack_set_temp_w1r1", "stack_put_temp_w2r0", "stack_gou_w0r1_miss", "stack_gou_w1r1_miss", "plain_set_seq", "sharded_get_01"],
      outside=["the no-writer miss path returns the throw-away temp file itself (read-write by construction): only its offset is checked"],
      assumptions=COMMON_ASSUME + ["the process umask only influences the initial mode of caller-supplied files, which is symbolic"])
 prop("C20", ["plain_get_seq", "plain_touch_seq", "stack_get_w1r1_nock", "plain_ops_sanity_twin"],
